@@ -12,7 +12,7 @@ EXTENDS IEEE, BvLane
 FloatOpsC02 == {"add", "sub", "mul", "div", "sqrt", "neg", "abs", "copysign", "and", "or", "xor", "not", "andnot", "bitofsign",
                 "fma", "fms", "fnma", "fnms", "min", "max", "fmin", "fmax", "sign", "signnz", "nextafter",
                 "op+", "op-", "op*", "op/", "op-u", "op&", "op|", "op^", "op~",
-                "op+=", "op-=", "op*=", "op/=", "op&=", "op|=", "op^=", "op++", "op--", "op++post", "op--post", "op++old", "op--old", "op+u"}
+                "op+=", "op-=", "op*=", "op/=", "op&=", "op|=", "op^=", "op++", "op--", "op++post", "op--post", "op++old", "op--old", "op+u", "land", "lor"}
 FloatOpsC08 == {"ceil", "floor", "trunc", "round", "nearbyint", "rint"}
 FloatPreds == {"isnan", "isinf", "isfinite", "is_flint", "is_even", "is_odd"}
 
@@ -50,6 +50,9 @@ FloatRel0(op, f, x, y, z, r) ==
     [] op = "sign"     -> IF IsNaN(f, x) THEN IsNaN(f, r) ELSE IF IsZeroF(f, x) THEN IsZeroF(f, r) ELSE r = WithSign(f, One_(f), SignOf(f, x))
     [] op = "signnz"   -> (IsNaN(f, x) \/ IsZeroF(f, x)) \/ r = WithSign(f, One_(f), SignOf(f, x))
     [] op = "nextafter" -> NextAfterOK(f, x, y, r)
+    \* batch && batch, batch || batch (beyond the listed properties): C++ truth value of the lanes (a NaN is true, a zero of either sign false) as 0.0 / 1.0
+    [] op = "land"     -> r = (IF ~IsZeroF(f, x) /\ ~IsZeroF(f, y) THEN One_(f) ELSE EncZero(f, 0))
+    [] op = "lor"      -> r = (IF ~IsZeroF(f, x) \/ ~IsZeroF(f, y) THEN One_(f) ELSE EncZero(f, 0))
     [] op = "ceil"     -> SameNumber(f, RoundInt(f, x, "up"), r)
     [] op = "floor"    -> SameNumber(f, RoundInt(f, x, "down"), r)
     [] op = "trunc"    -> SameNumber(f, RoundInt(f, x, "zero"), r)
